@@ -169,6 +169,103 @@ def dedupe(xs):
     return out
 
 
+# sensitivity twin (lx/check.py): while "on", the FIRST observation of a path is perturbed the way a wrong implementation
+# would be (one element of every non-empty field lost, or a phantom table when nothing is reported); the harness has to
+# come back with "assertion violated" on such a path, otherwise its assertion is vacuous or not reached
+TWIN = {"on": False, "n": 0, "armed": True}   # armed: a harness disarms it while it makes observations it discards
+
+
+def twin_arm(flag=True):
+    TWIN["armed"] = flag
+
+
+def _perturb(d):
+    if not TWIN["armed"]:
+        return d
+    TWIN["n"] += 1
+    if TWIN["n"] > 1:
+        return d
+    if not (d.sources or d.targets or d.pairs):
+        d.sources, d.targets = [SymStr.const("<lx-phantom>")], [SymStr.const("<lx-phantom>")]
+        return d
+    for k in ("sources", "targets", "pairs"):
+        v = list(getattr(d, k))
+        if v:
+            setattr(d, k, v[1:])
+    if d.extra.get("paths"):
+        d.extra["paths"] = d.extra["paths"][1:]
+    return d
+
+
+def twin_lists(*lists, phantom="zz"):
+    """class-specific observations (lists of names) perturbed under the sensitivity twin: every non-empty list loses its
+    first element; when all are empty the first gets a phantom"""
+    if not TWIN["on"] or not TWIN["armed"]:
+        return lists
+    TWIN["n"] += 1
+    if TWIN["n"] > 1:
+        return lists
+    lists = [list(x) for x in lists]
+    if not any(lists):
+        lists[0] = [SymStr.const(phantom)]
+    else:
+        lists = [x[1:] for x in lists]
+    return tuple(lists)
+
+
+def twin_fault():
+    """sensitivity twin of the exception monitors: an internal error where the monitored call has just returned"""
+    if TWIN["on"] and TWIN["armed"] and not TWIN["n"]:
+        TWIN["n"] += 1
+        raise IndexError("lx sensitivity twin")
+
+
+class TwinRunner:
+    """sensitivity twin for checks whose assertion is an invariant over the runner's own accessors (C06, C18): the first
+    export loses its first node (or gains a phantom when empty), the first column path is reversed"""
+
+    def __init__(self, lr):
+        self.__dict__["_lr"] = lr
+        self.__dict__["_done"] = set()
+
+    def __getattr__(self, k):
+        return getattr(self._lr, k)
+
+    def __str__(self):
+        return str(self._lr)
+
+    def to_cytoscape(self, *a, **kw):
+        out = list(self._lr.to_cytoscape(*a, **kw))
+        if "cyto" not in self._done:
+            self._done.add("cyto")
+            TWIN["n"] += 1
+            nodes = [i for i, x in enumerate(out) if "source" not in x["data"]]
+            if nodes:
+                del out[nodes[0]]
+            else:
+                out.append({"data": {"id": SymStr.const("<lx-phantom>")}})
+        return out
+
+    def get_column_lineage(self, *a, **kw):
+        out = list(self._lr.get_column_lineage(*a, **kw))
+        if out and "paths" not in self._done and self._want_paths:
+            self._done.add("paths")
+            TWIN["n"] += 1
+            out[0] = tuple(reversed(out[0]))
+        return out
+
+
+def twin_runner(lr, paths=True, cyto=True):
+    if not TWIN["on"]:
+        return lr
+    TWIN["n"] = 0
+    t = TwinRunner(lr)
+    t.__dict__["_want_paths"] = paths
+    if not cyto:
+        t._done.add("cyto")
+    return t
+
+
 def dump_runner(lr, full_paths=False, quiet=True) -> Dump:
     """evaluate a (lifted) LineageRunner through its public accessors"""
     import contextlib
@@ -184,4 +281,5 @@ def dump_runner(lr, full_paths=False, quiet=True) -> Dump:
     extra = {}
     if full_paths:
         extra["paths"] = [tuple(str(c) for c in p) for p in paths]
-    return Dump(src, tgt, mid, pairs, extra)
+    d = Dump(src, tgt, mid, pairs, extra)
+    return _perturb(d) if TWIN["on"] else d
